@@ -134,7 +134,7 @@ def sanitize_part_data(boundary, data):
         if i < 0:
             break
         j = i + len(tok) - 1
-        x = x[:j] + b'_' + x[j:]
+        x = x[:j] + b'#' + x[j:]      # '#' is not a boundary character, so it cannot be part of (or recreate) the delimiter
         n += 1
     return x[2:], n
 
